@@ -503,6 +503,12 @@ def core_pool():
           arr(2, ('opt', S('u8'))), vec(('res', 2, 'u8', ('str', 1))), vec(S('u8', 1)), ('tup', 'pair', [S('bool'), S('u8', 1)]),
           ('map', False, ('str', 1), ('map', False, S('u8'), vec(S('i32')))), ('tup', 'tuple', [('opt', ('str', 4)), ('var', [S('f64'), vec(S('i64'))])]),
           vec(('var', [S('i8'), ('tup', 'pair', [S('u16'), ('str', 1)])]))]
+    # integral arrays whose element count and byte count fall into different length classes (40 x 4, 70 x 2, 100 x 8 bytes)
+    P += [arr(40, S('u32'), True), arr(70, S('i16')), arr(100, S('u64'), True), st(lbuf(60, 'u8', S('u32')), S('u8'))]
+    # handle policies whose type tag is a signed type, 128 or more / negative
+    P += [('hnd', 3, 'i16', 200), st(('hnd', 4, 'i32', -3), S('u8'))]
+    # a variant with more alternatives than a fixint counts (the index leaves the one-byte class at 128)
+    P += [('var', [('wrap', 1000 + i, S('u8')) for i in range(130)])]
     # a structure with more members than a fixint counts (the member count leaves the one-byte class at 128)
     P += [st(*([S('u8')] * 130))]
     # structures declared from outside (NOP_EXTERNAL_STRUCTURE): members of every kind, nested, in containers and entries
@@ -593,6 +599,8 @@ def gen_value(t, rng, depth=0):
         if rng.random() < 0.2 or not t[1]:
             return 'empty'
         i = rng.randrange(len(t[1]))
+        if len(t[1]) > 128:       # around the point where the index leaves the one-byte class
+            i = rng.choice([0, 127, 128, len(t[1]) - 1, i])
         return '(alt %d %s)' % (i, gen_value(t[1][i], rng, depth + 1))
     if k == 'hnd':
         return '(hnd %d)' % rng.choice([-1, 0, 3, 7, 1 << 40, -5, -(1 << 40)])
